@@ -216,6 +216,20 @@ type Client struct {
 	Timeout time.Duration
 	// All events ever received, in order (the per-connection log).
 	Log []*Event
+	// Request ids are unique across the connections of a run: this connection
+	// issues ids in [reqBase, reqBase+100000) and barrier pings in
+	// [pingBase, pingBase+200000). An answer echoing any other id was meant for
+	// somebody else (or nobody).
+	reqBase, pingBase uint32
+	foreign           []*Event
+}
+
+// ForeignAnswers returns the events that echoed a request id this connection
+// never issued.
+func (c *Client) ForeignAnswers() []*Event {
+	c.mu.Lock()
+	defer c.mu.Unlock()
+	return append([]*Event(nil), c.foreign...)
 }
 
 var cidCounter atomic.Int64
@@ -249,7 +263,10 @@ func Dial(id int, addr string, query url.Values, header map[string]string) (*Cli
 	}
 	nc.SetDeadline(time.Time{})
 	ws.PayloadType = websocket.BinaryFrame
-	c := &Client{ID: id, CID: cid, ws: ws, nc: nc, Timeout: 20 * time.Second, nextReq: 1000}
+	slot := uint32(id%10000+10000) % 10000
+	c := &Client{ID: id, CID: cid, ws: ws, nc: nc, Timeout: 20 * time.Second}
+	c.reqBase, c.pingBase = 1000+slot*100000, 0x40000000+slot*200000
+	c.nextReq = c.reqBase
 	if h, ok := header["posemesh-client-id"]; ok {
 		c.CID = h
 	}
@@ -325,6 +342,16 @@ func Decode(data []byte) *Event {
 
 func (c *Client) push(e *Event) {
 	e.Conn = c.ID
+	if e.M != nil && e.Type != TPingReq {
+		if f := e.M.ProtoReflect().Descriptor().Fields().ByName("request_id"); f != nil {
+			if id := uint32(e.M.ProtoReflect().Get(f).Uint()); id != 0 &&
+				!(id >= c.reqBase && id < c.reqBase+100000) && !(id >= c.pingBase && id < c.pingBase+200000) {
+				c.mu.Lock()
+				c.foreign = append(c.foreign, e)
+				c.mu.Unlock()
+			}
+		}
+	}
 	c.mu.Lock()
 	e.Seq = globalSeq.Add(1)
 	c.inbox = append(c.inbox, e)
@@ -393,7 +420,7 @@ func (c *Client) Drain() []*Event {
 func (c *Client) Barrier() ([]*Event, error) {
 	c.mu.Lock()
 	c.nextPing++
-	id := 0x40000000 + c.nextPing
+	id := c.pingBase + c.nextPing%200000
 	c.mu.Unlock()
 	err := c.Send(&hagallpb.Request{Type: hagallpb.MsgType_MSG_TYPE_PING_REQUEST, Timestamp: timestamppb.Now(), RequestId: id})
 	if err != nil {
